@@ -151,6 +151,35 @@ UrlDec(s, i, out) ==
   ELSE IF i + 2 > Len(s) \/ HexV(s[i + 1]) < 0 \/ HexV(s[i + 2]) < 0 THEN [ok |-> FALSE, s |-> <<>>]
   ELSE UrlDec(s, i + 3, Append(out, 16 * HexV(s[i + 1]) + HexV(s[i + 2])))
 
+JLess(a, b) == \E i \in 1..(IF Len(a) < Len(b) THEN Len(a) ELSE Len(b)) + 1 :
+                 /\ \A j \in 1..(i - 1) : j <= Len(a) /\ j <= Len(b) /\ a[j] = b[j]
+                 /\ \/ (i > Len(a) /\ i <= Len(b))
+                    \/ (i <= Len(a) /\ i <= Len(b) /\ a[i] < b[i])
+RECURSIVE JSortIdx(_, _)
+JSortIdx(ks, S) == IF S = {} THEN <<>>
+                   ELSE LET mn == CHOOSE a \in S : \A b \in S \ {a} : JLess(ks[a], ks[b]) IN <<mn>> \o JSortIdx(ks, S \ {mn})
+\* fmt's %v of a list / map (Go []any / map[string]any): elements separated by one blank inside [ ], a map as map[k:v ...] with its keys in
+\* ascending byte order, strings unquoted, nil as <nil>.  Floats inside collections and collections deeper than Deep's fuel are left open.
+RECURSIVE FmtText(_), FmtSeq(_, _, _), FmtPairs(_, _, _, _)
+FmtText(d) ==
+  CASE d.t \in {"nil", "void"} -> [ok |-> TRUE, s |-> <<60, 110, 105, 108, 62>>]
+    [] d.t = "bool" -> [ok |-> TRUE, s |-> IF d.b THEN TRUEs ELSE FALSEs]
+    [] d.t = "int" -> [ok |-> TRUE, s |-> DecStr(d.i)]
+    [] d.t = "str" -> [ok |-> TRUE, s |-> d.s]
+    [] d.t = "list" -> (LET r == FmtSeq(d.e, 1, <<91>>) IN IF r.ok THEN [ok |-> TRUE, s |-> Append(r.s, 93)] ELSE r)
+    [] d.t = "map" -> (LET r == FmtPairs(d.ks, d.vs, JSortIdx(d.ks, 1..Len(d.ks)), <<109, 97, 112, 91>>) IN IF r.ok THEN [ok |-> TRUE, s |-> Append(r.s, 93)] ELSE r)
+    [] OTHER -> [ok |-> FALSE, s |-> <<>>]
+FmtSeq(es, i, out) ==
+  IF i > Len(es) THEN [ok |-> TRUE, s |-> out]
+  ELSE LET r == FmtText(es[i]) IN
+       IF ~r.ok THEN r ELSE FmtSeq(es, i + 1, (IF i > 1 THEN Append(out, 32) ELSE out) \o r.s)
+FmtPairs(ks, vs, order, out) ==
+  IF order = <<>> THEN [ok |-> TRUE, s |-> out]
+  ELSE LET j == Head(order)
+           r == FmtText(vs[j]) IN
+       IF ~r.ok THEN r
+       ELSE FmtPairs(ks, vs, Tail(order), (IF Len(out) > 4 THEN Append(out, 32) ELSE out) \o ks[j] \o <<58>> \o r.s)
+
 \* fmt.Sprintf restricted to %s %d %v %% on strings, integers, booleans and nil (%v of nil is "<nil>")
 VerbStr(verb, v) ==
   CASE verb = 115 /\ v.t = "str" -> [ok |-> TRUE, s |-> v.s]                          \* %s
@@ -158,6 +187,7 @@ VerbStr(verb, v) ==
     [] verb = 118 /\ v.t \in {"str", "int", "bool"} -> ToStrV(v)                      \* %v
     [] verb = 118 /\ v.t \in {"nil", "void"} -> [ok |-> TRUE, s |-> <<60, 110, 105, 108, 62>>]
     [] verb = 118 /\ v.t = "float" -> FloatStr(v.f)
+    [] verb = 118 /\ v.t \in {"list", "map"} -> FmtText(v)                           \* operands are deep values (DeepV)
     [] OTHER -> [ok |-> FALSE, s |-> <<>>]
 RECURSIVE Sprintf(_, _, _, _, _)
 Sprintf(f, i, args, a, out) ==
@@ -377,13 +407,6 @@ JStrBody(s, i, out) ==
        ELSE IF b < 32 \/ b >= 127 THEN [ok |-> FALSE, s |-> <<>>]
        ELSE JStrBody(s, i + 1, Append(out, b))
 JStr(s) == LET r == JStrBody(s, 1, <<34>>) IN IF r.ok THEN [ok |-> TRUE, s |-> Append(r.s, 34)] ELSE r
-JLess(a, b) == \E i \in 1..(IF Len(a) < Len(b) THEN Len(a) ELSE Len(b)) + 1 :
-                 /\ \A j \in 1..(i - 1) : j <= Len(a) /\ j <= Len(b) /\ a[j] = b[j]
-                 /\ \/ (i > Len(a) /\ i <= Len(b))
-                    \/ (i <= Len(a) /\ i <= Len(b) /\ a[i] < b[i])
-RECURSIVE JSortIdx(_, _)
-JSortIdx(ks, S) == IF S = {} THEN <<>>
-                   ELSE LET mn == CHOOSE a \in S : \A b \in S \ {a} : JLess(ks[a], ks[b]) IN <<mn>> \o JSortIdx(ks, S \ {mn})
 RECURSIVE JsonText(_), JsonSeq(_, _, _), JsonPairs(_, _, _, _)
 JsonText(d) ==
   CASE d.t \in {"nil", "void"} -> [ok |-> TRUE, s |-> <<110, 117, 108, 108>>]
@@ -811,17 +834,17 @@ EvalCall(e, st) ==
                                          ELSE Args(i + 1, r.st, Append(acc, r.v))
             IN IF e.f = "strfmt"
                  THEN (LET a == Args(first, st, <<>>)
-                           f == Sprintf(e.as[2].s, 1, a.vs, 1, <<>>) IN
+                           f == Sprintf(e.as[2].s, 1, [j \in 1..Len(a.vs) |-> DeepV(a.st.heap, a.vs[j])], 1, <<>>) IN
                        IF ~a.ok THEN E(a.st, a.cls)
-                       ELSE IF ~f.ok \/ \E j \in 1..Len(a.vs) : a.vs[j].t = "ref" THEN E(a.st, "unspec-format")
+                       ELSE IF ~f.ok THEN E(a.st, "unspec-format")
                        ELSE R([a.st EXCEPT !.pt = PtSetField(@, Alias(KeyNameOf(e.as[1]).n), VStr(f.s)),
                                            !.log = Append(@, [ev |-> "call", k |-> "strfmt"])], VVoid))
                  ELSE (LET fr == Eval(e.as[1], st) IN          \* the format is evaluated as an expression; a non-string prints nothing
                        IF ~fr.ok \/ fr.v.t # "str" \/ fr.v.s = <<>> THEN R(IF fr.ok THEN fr.st ELSE st, VVoid)
                        ELSE LET a == Args(first, fr.st, <<>>) IN
                             IF ~a.ok THEN E(a.st, a.cls)
-                            ELSE LET f == Sprintf(fr.v.s, 1, a.vs, 1, <<>>) IN
-                                 IF ~f.ok \/ \E j \in 1..Len(a.vs) : a.vs[j].t = "ref" THEN E(a.st, "unspec-format")
+                            ELSE LET f == Sprintf(fr.v.s, 1, [j \in 1..Len(a.vs) |-> DeepV(a.st.heap, a.vs[j])], 1, <<>>) IN
+                                 IF ~f.ok THEN E(a.st, "unspec-format")
                                  ELSE R([a.st EXCEPT !.log = Append(@, [ev |-> "printf", s |-> f.s])], VVoid)))
       [] e.f = "add_pattern" -> R(st, VVoid)          \* load-time only (Patterns!Annotate)
       [] e.f = "grok" ->
@@ -879,7 +902,7 @@ EvalCall(e, st) ==
             ELSE IF g.v.t \in {"ref", "json", "tagstr"} THEN E(st, "unspec-subject")
             ELSE LET x == ToStrV(g.v) IN
                  IF ~x.ok THEN E(st, "unspec-subject")
-                 ELSE LET q == TimeLookup(x.s, IF Len(e.as) >= 2 THEN e.as[2].s ELSE <<>>) IN
+                 ELSE LET q == TimeLookup(x.s, IF Len(e.as) >= 2 THEN e.as[2].s ELSE st.pt.lz) IN     \* no zone argument: the process's zone at the time of the call
                       IF ~q.known THEN E(st, "unspec-engine")
                       ELSE IF q.e.ok THEN R([lg EXCEPT !.pt = [PtDel(@, Alias(kn.n)) EXCEPT !.time = q.e.ns]], VVoid)
                       \* failure: the point keeps its time and key; a failure note appears under pl_msg
